@@ -144,6 +144,24 @@ def check_enum(ctx, rule, crate, enum_path, reader_names, scope, direction_kinds
             ctx.violate(rule, f"{key0}|opcode-const|{vn}", f"{p['obj'].name}: OPCODE const is {oc['val'] if oc else None}, wowm opcode is {want:#x} ({p['obj'].ast.file}:{p['obj'].ast.line})",
                         oc["file"] if oc else adt["file"], oc["line"] if oc else adt["line"])
     # readers
+    # From<Message> for the opcode enum: the variant built is the message's own (unit variants carry no type to keep them apart)
+    import re as _re
+    pre = f"<{enum_path} as std::convert::From<"
+    for fn in F.all("fn", lambda q: q.startswith(pre) and q.endswith(">>::from")):
+        T = fn["path"][len(pre):-len(">>::from")]
+        tname = T.split("::")[-1]
+        n += 1
+        b = fn["hir"]
+        tail = H.strip(b[2]) if H.tag(b) == "block" and not b[1] and b[2] is not None else None
+        built = None
+        if tail is not None and H.tag(tail) == "path":
+            built = tail[1]
+        elif tail is not None and H.tag(tail) == "call":
+            built = H.call_path(tail)
+        if built is None or not built.startswith(enum_path + "::"):
+            ctx.violate(rule, f"{key0}|from|{tname}|shape", f"impl From<{tname}> for {enum_path}: body is not a single variant constructor — review: {H.short(b, maxlen=100)}", fn["file"], fn["line"])
+        elif built.split("::")[-1] != variant_name(tname):
+            ctx.violate(rule, f"{key0}|from|{tname}", f"impl From<{tname}> for {enum_path} builds the variant {built.split('::')[-1]}, the message's own variant is {variant_name(tname)}", fn["file"], fn["line"])
     # the protocol-parameterised readers of the collective (latest) opcode enums decide the message from the same opcode table
     proto = [rn.replace("read", "read_protocol") for rn in reader_names if F.fn(f"{enum_path}::{rn.replace('read', 'read_protocol')}") is not None] if login else []
     for rn in list(reader_names) + proto:
